@@ -36,11 +36,11 @@ theorem stored_iff (loc : IA) (ps : Policies) (intf : Option Intf) (entries : Li
       unfold validateASEntry
       by_cases hlt : i.lt ≠ .parent ∧ i.lt ≠ .core
       · rw [if_pos hlt]
-        simp only [false_iff]
+        refine ⟨(fun h => by cases h), ?_⟩
         rintro ⟨h, _⟩
         rcases h with h | h
-        · exact hlt.1 h
-        · exact hlt.2 h
+        · exact (hlt.1 h).elim
+        · exact (hlt.2 h).elim
       · rw [if_neg hlt]
         have hlt' : i.lt = .parent ∨ i.lt = .core := by
           by_cases h : i.lt = .parent
@@ -55,17 +55,17 @@ theorem stored_iff (loc : IA) (ps : Policies) (intf : Option Intf) (entries : Li
           dsimp only
           by_cases h1 : l ≠ i.ia
           · rw [if_pos h1]
-            simp only [false_iff]
+            refine ⟨(fun h => by cases h), ?_⟩
             rintro ⟨_, h, _⟩
             simp only [Option.some.injEq, Prod.mk.injEq] at h
-            exact h1 h.1
+            exact (h1 h.1).elim
           · rw [if_neg h1]
             by_cases h2 : n ≠ loc
             · rw [if_pos h2]
-              simp only [false_iff]
+              refine ⟨(fun h => by cases h), ?_⟩
               rintro ⟨_, h, _⟩
               simp only [Option.some.injEq, Prod.mk.injEq] at h
-              exact h2 h.2
+              exact (h2 h.2).elim
             · rw [if_neg h2]
               have h1' : l = i.ia := by simpa using h1
               have h2' : n = loc := by simpa using h2
@@ -80,12 +80,12 @@ theorem stored_iff (loc : IA) (ps : Policies) (intf : Option Intf) (entries : Li
                   simp only [Outcome.stored.injEq]
                   constructor
                   · intro h; subst h
-                    exact ⟨hlt', rfl, rfl, rfl, by simp⟩
+                    exact ⟨hlt', by simp, by simp⟩
                   · rintro ⟨_, _, _, h, _⟩
                     exact h.symm
     · have hpf' : preFilterOk ps (hopsOf entries) = false := by simpa using hpf
       simp only [hpf', Bool.not_false, if_true]
-      simp only [false_iff]
+      refine ⟨(fun h => by cases h), ?_⟩
       rintro ⟨_, _, _, hu, hne⟩
       have := (preFilterOk_iff_usage ps (hopsOf entries)).2 (hu ▸ hne)
       rw [this] at hpf'
@@ -135,8 +135,8 @@ theorem stored_respects_filters (loc : IA) (ps : Policies) (intf : Option Intf)
 
 /-- the two policy sets of the real stores have distinct tags -/
 example (a b c : Filter) : (([(.prop, a), (.upReg, b), (.downReg, c)] : Policies).map (·.1)).Nodup := by
-  decide
-example (a b : Filter) : (([(.prop, a), (.coreReg, b)] : Policies).map (·.1)).Nodup := by decide
+  simp
+example (a b : Filter) : (([(.prop, a), (.coreReg, b)] : Policies).map (·.1)).Nodup := by simp
 
 /-! ### propagation -/
 
